@@ -67,12 +67,21 @@ inline void all_slots_free_and_reusable() {
 YK_HARNESS H_c16_epoch_runs_every_cycle() {
     arbitrary_previous_cycles();
     init();
-    all_slots_free_and_reusable();
+    // no session is opened in this cycle (opening one would overwrite whatever a slot still carries from earlier cycles)
     g_e0 = epoch_management::get_epoch();
     g_stage = 1;
     epoch_manager::epoch_thread(); // the body the started thread runs
     // returning means the thread exited although fin() was not called: the epoch stops advancing in this cycle
     YK_ASSERT(false);
+}
+
+// after init() - from whatever earlier cycles left - every session slot is free, distinct and reusable
+YK_HARNESS H_c16_slots_free_every_cycle() {
+    arbitrary_previous_cycles();
+    init();
+    all_slots_free_and_reusable();
+    for (auto& ti : thread_info_table::get_thread_info_table()) YK_ASSERT(!ti.get_running() && ti.get_begin_epoch() == 0);
+    YK_REACH();
 }
 
 // after init() the gc thread keeps reclaiming retired memory
